@@ -402,3 +402,78 @@ Example C06_load_example :
   /\ load false None (Files None) = Err [[LS "entrypoint"]]
   /\ load true (Some ex_bad) (Files (Some [])) = Err [[LS "workflows"; LN 0; LS "execute"; LN 0]].
 Proof. vm_compute. repeat split; reflexivity. Qed.
+
+(* ------------------------------------------------------------------ parameter references WITHOUT an enclosing scope,
+   and the entry point lightweight_validate (Load.v) *)
+
+(* AT ANY DEPTH and for ANY parent (also a parent with NO parameter at all, also NO parent: the entry instance): when
+   the traversal enters an instance one of whose arguments - supplied or defaulted - refers to a name that is not a
+   parameter of the parent scope, an error is recorded *)
+Theorem C06_foreign_ref_reported : forall f N anc parent l dsl t args st,
+  d_abort st = false -> foreign_ref parent t args ->
+  has_err (visit (S f) N anc parent l dsl t args st).
+Proof. exact visit_foreign_ref. Qed.
+Print Assumptions C06_foreign_ref_reported.
+
+(* END TO END for the arguments of the ENTRY instance (no enclosing scope: every reference is foreign - an unknown
+   name, a parameter of the entry template itself, a reference nested in more text, "%(x)s"/path:method): never
+   compiled, whether they come from entrypoint.execute[0].args / declared defaults ... *)
+Theorem C06_entry_param_ref_rejected : forall N, entry_param_ref N -> forall cis, compile N <> Ok cis.
+Proof. exact entry_param_ref_compile. Qed.
+Print Assumptions C06_entry_param_ref_rejected.
+
+(* ... from override_entrypoint_args ... *)
+Theorem C06_override_param_ref_rejected : forall N ov,
+  entry_param_ref (with_eargs N (ov_eargs N ov)) -> forall cis, compile_ov (Some N) ov <> Ok cis.
+Proof. exact entry_param_ref_ov. Qed.
+Print Assumptions C06_override_param_ref_rejected.
+
+(* ... or from the user variable files of DSLExperimentConfiguration (validate True or False) *)
+Theorem C06_uservar_param_ref_rejected : forall v N g,
+  entry_param_ref (with_eargs N (update (n_eargs N) (update (n_eargs N) g))) ->
+  forall cis, load v (Some N) (Files (Some g)) <> Ok cis.
+Proof. exact entry_param_ref_load. Qed.
+Print Assumptions C06_uservar_param_ref_rejected.
+
+(* lightweight_validate: never accepts such a namespace, an error always lists a location, and it agrees with the
+   compiler: what it reports is what the compiler reports, it never rejects what the compiler accepts *)
+Theorem C06_lightweight_param_ref_rejected : forall N ov,
+  entry_param_ref (with_eargs N (ov_eargs N ov)) -> lightweight (Some N) ov <> LwOk.
+Proof. exact entry_param_ref_lightweight. Qed.
+Print Assumptions C06_lightweight_param_ref_rejected.
+
+Theorem C06_lightweight_err_nonempty : forall N ov e, lightweight N ov = LwErr e -> e <> [].
+Proof. exact lightweight_err_nonempty. Qed.
+Print Assumptions C06_lightweight_err_nonempty.
+
+Theorem C06_lightweight_err_is_compile : forall N ov e,
+  lightweight (Some N) ov = LwErr e -> compile_ov (Some N) ov = Err e.
+Proof. exact lightweight_err_is_compile. Qed.
+Print Assumptions C06_lightweight_err_is_compile.
+
+Theorem C06_lightweight_accepts_compiled : forall N ov cis,
+  compile_ov (Some N) ov = Ok cis -> lightweight (Some N) ov = LwOk.
+Proof. exact compile_ok_lightweight. Qed.
+Print Assumptions C06_lightweight_accepts_compiled.
+
+(* non-vacuity: ex_ns (valid, compiled above) with a reference to the entry template's OWN parameter in the override;
+   the hypothesis holds and every entry point answers with the location of the entrypoint *)
+Definition ex_entry_ref : ns :=
+  {| n_entry := "main"; n_eargs := [("p", [Lit "hello "; Param "q"])];
+     n_wfs := [ {| w_name := "main"; w_params := [("p", None); ("q", Some [Lit "x"])]; w_steps := [("a", "c")];
+                   w_exec := [("a", [("m", [Param "p"; Lit " "; Param "q"])])] |} ];
+     n_comps := [ {| c_name := "c"; c_params := [("m", None)]; c_vars := []; c_args := [Lit "echo "; Param "m"] |} ] |}.
+Example C06_entry_ref_example :
+  entry_param_ref ex_entry_ref
+  /\ compile ex_entry_ref = Err [[LS "entrypoint"]]
+  /\ lightweight (Some ex_entry_ref) None = LwErr [[LS "entrypoint"]]
+  /\ spec_ns ex_entry_ref = None
+  /\ (exists cis, compile_ov (Some ex_entry_ref) (Some [("p", [Lit "hi"])]) = Ok cis)
+  /\ lightweight (Some ex_entry_ref) (Some [("p", [Lit "hi"])]) = LwOk
+  /\ load false (Some ex_entry_ref) (Files (Some [("p", [POut "zz" ["o"] (Some "ref")])])) = Err [[LS "entrypoint"]].
+Proof.
+  split.
+  - eexists. split; [vm_compute; reflexivity|]. exists ("p", [Lit "hello "; Param "q"]), "q".
+    vm_compute. repeat split; auto.
+  - vm_compute. repeat split; try reflexivity. eexists; reflexivity.
+Qed.
